@@ -565,29 +565,47 @@ pub fn allow_key_registries_limit_not_exceeded() {
 fn limit_trap(_code: u32) {
     prop!(false, "C20.claim_issuer.allow_key.registries_per_key_limit_exact");
 }
+#[cfg(feature = "traphook")]
+fn below_limit_trap(_code: u32) {
+    prop!(false, "C20.claim_issuer.allow_key.new_pair_below_the_limit_accepted");
+}
 
-/// "if" direction: `allow_key` of a NEW (topic, registry) pair for a key that holds n pairs, n + 1 <=
-/// MAX_REGISTRIES_PER_KEY ("Maximum number of registries allowed per signing key"), non-empty key, registry
-/// confirming, room in the topic list, returns normally. Every trap of the call is reported under the limit clause
-/// (trap observer of the model, feature `traphook`).
+/// a NEW (topic, registry) pair for a key that holds n pairs (lo <= n <= hi), non-empty key, registry confirming,
+/// room in the topic list, ledger far from the u32 end: every trap of the call is reported by `hook` (trap observer
+/// of the model, feature `traphook`) under the hook's clause name
 #[cfg(all(feature = "cap21", feature = "traphook"))]
-#[kani::proof]
-#[kani::unwind(98)]
-pub fn allow_key_registries_limit_reachable() {
+fn new_pair_must_be_accepted(lo: u32, hi: u32, hook: fn(u32)) {
     setup_world();
     let e = Env::default();
     kani::assume(world().seq < u32::MAX - KEYS_EXTEND_AMOUNT);
-    let (nm, pairs, _keys, registry) = declare_at_limit(MAX_REGISTRIES_PER_KEY - 2, MAX_REGISTRIES_PER_KEY - 1);
+    let (nm, pairs, _keys, registry) = declare_at_limit(lo, hi);
     kani::assume(!nm.k.public_key.is_empty());
     kani::assume(!pairs.has(nm.topic, registry.id));
     model::preset_call::<bool>(0, false, &true);
-    witness!(pairs.n + 1 == MAX_REGISTRIES_PER_KEY, "limit.call_reaching_exactly_the_documented_maximum_is_tried");
-    witness!(pairs.n + 2 == MAX_REGISTRIES_PER_KEY, "limit.call_reaching_one_below_the_documented_maximum_is_tried");
+    witness!(pairs.n == hi, "limit.call_at_the_upper_end_is_tried");
+    witness!(pairs.n == lo && pairs.has_topic(nm.topic), "limit.call_at_the_lower_end_is_tried_for_a_listed_key");
 
-    unsafe { model::ON_TRAP = Some(limit_trap) };
+    unsafe { model::ON_TRAP = Some(hook) };
     allow_key(&e, &nm.k.public_key, &registry, nm.k.scheme, nm.topic);
     unsafe { model::ON_TRAP = None };
 
     prop!(Pairs::of_slot(S_PAIRS).has(nm.topic, registry.id), "C20.claim_issuer.allow_key.accepted_pair_is_stored");
     end_checks(2);
+}
+
+/// "if" direction of the limit clause: with n + 1 == MAX_REGISTRIES_PER_KEY ("Maximum number of registries allowed
+/// per signing key") the call returns normally
+#[cfg(all(feature = "cap21", feature = "traphook"))]
+#[kani::proof]
+#[kani::unwind(98)]
+pub fn allow_key_registries_limit_reachable() {
+    new_pair_must_be_accepted(MAX_REGISTRIES_PER_KEY - 1, MAX_REGISTRIES_PER_KEY - 1, limit_trap);
+}
+
+/// companion: strictly below the limit (n + 1 < MAX_REGISTRIES_PER_KEY) the call returns normally
+#[cfg(all(feature = "cap21", feature = "traphook"))]
+#[kani::proof]
+#[kani::unwind(98)]
+pub fn allow_key_below_registries_limit_accepted() {
+    new_pair_must_be_accepted(MAX_REGISTRIES_PER_KEY - 3, MAX_REGISTRIES_PER_KEY - 2, below_limit_trap);
 }
